@@ -26,6 +26,9 @@ HOLDERS = {
     "nested-holder": (St(("inner", St(("r", Ref(P)), ("z", Sc("i8")))), ("k", Sc("i64"))), [("inner", "r")], [P]),
     "uref-array-member": (St(("u", URef(DA, P)), ("t", STR)), [("u",)], [DA, P]),
     "standalone-uref": (URef(P, Q), [()], [P, Q]),
+    # two union classes sharing their members in different positions (member index is per union class)
+    "two-unions": (St(("u", URef(P, Q)), ("w", URef(Q, P)), ("k", Sc("i64"))), [("u",), ("w",)], [P, Q]),
+    "union-subset": (St(("u", URef(Q, P)), ("w", URef(P)), ("k", Sc("i8"))), [("u",), ("w",)], [P, Q]),
 }
 
 
@@ -94,7 +97,8 @@ class World:
         arg = {}
         for n, ft in ht[1]:
             if ft[0] in ("R", "U"):
-                arg[n] = tgt
+                okm = bind is None or self.objs[bind]["t"] in (list(ft[1]) if ft[0] == "U" else [ft[1]])
+                arg[n] = tgt if okm else None
             elif ft[0] == "St":
                 arg[n] = {m: (tgt if mt[0] in ("R", "U") else xt.gen(mt, "ramp")) for m, mt in ft[1]}
             else:
@@ -103,7 +107,7 @@ class World:
 
     def add_holder(self, bind):
         h = xt.construct(self.ht, self.holder_arg(bind), _buffer=self.B)
-        self.holders.append((h, {sp: bind for sp in self.slots}))
+        self.holders.append((h, {sp: (bind if bind is None or self.objs[bind]["t"] in self.slot_members(sp) else None) for sp in self.slots}))
 
     # ---- implementation-side accessors
     def slot_read(self, hi, sp):
@@ -123,6 +127,10 @@ class World:
             return int(h._offset)
         pt, ph = hand.nav(self.ht, h, sp[:-1])
         return int(ph._get_offset(sp[-1]))
+
+    def slot_members(self, sp):
+        st = self.slot_type(sp)
+        return list(st[1]) if st[0] == "U" else [st[1]]
 
     def slot_type(self, sp):
         t = self.ht
@@ -145,11 +153,12 @@ def events(w, max_holders=2):
             st = w.slot_type(sp)
             if w.ht[0] != "U":  # a stand-alone union reference has no setter
                 for oid in w.pool:
-                    if w.objs[oid]["t"] in w.members:
+                    if w.objs[oid]["t"] in w.slot_members(sp):
                         evs.append(("bind-existing", hi, sp, oid))
-                for mi, m in enumerate(w.members if st[0] == "U" else w.members[:1]):
+                for mi, m in enumerate(w.slot_members(sp)):
                     evs.append(("bind-value", hi, sp, mi))
-                evs.append(("bind-foreign", hi, sp))
+                if w.objs[w.foreign]["t"] in w.slot_members(sp):
+                    evs.append(("bind-foreign", hi, sp))
                 evs.append(("bind-null", hi, sp))
             if binding[sp] is not None:
                 evs.append(("write-ref", hi, sp))
@@ -173,7 +182,7 @@ def apply(w, ev, n):
     elif kind == "bind-value":
         _, hi, sp, mi = ev
         st = w.slot_type(sp)
-        mt = w.members[mi]
+        mt = w.slot_members(sp)[mi]
         v = obj_value(mt, 20 + n)
         arg = xt.to_py(mt, v)
         if st[0] == "U":
@@ -255,7 +264,7 @@ def check(w, created, res, ev_allocs):
             if type(x).__name__ != mname:
                 out.append(("C08.member-type", "wrong-class", "slot %r resolves to %s, recorded member %s" % (sp, type(x).__name__, mname)))
                 continue
-            if tid is not None and tid != w.members.index(o["t"]):
+            if tid is not None and tid != w.slot_members(sp).index(o["t"]):
                 out.append(("C08.member-type", "wrong-member-index", "slot %r index %d for member %s" % (sp, tid, mname)))
             if x._buffer is not w.B:
                 out.append(("C08.own-buffer", "resolves-in-another-buffer", "slot %r" % (sp,)))
